@@ -1620,7 +1620,8 @@ enum AttributeTarget {
 }
 
 fn is_lint_attr(a: &Attribute) -> bool {
-    ["allow", "warn", "deny", "forbid", "expect"]
+    // not `expect`: the expectation is fulfilled (or not) by the item itself, on a generated impl it could only be unfulfilled
+    ["allow", "warn", "deny", "forbid"]
         .iter()
         .any(|name| a.path().is_ident(name))
 }
